@@ -381,6 +381,28 @@ func c16Run(cs c16Case) (obs Term) {
 	return L(S(status), c16ObsProfile(p), c16ObsProfile(pb), Bool(save), L(el[0]...), L(el[1]...), L(tail...), Ss(multi))
 }
 
+// c16IsPlain: the source is exactly c16Plain(i, grp, _) -- shipped as TL [TZ kind]; the runner
+// (coq/R_C16.v plain_prof) rebuilds the profile from the position.
+func c16IsPlain(s c16Src, i, grp int) bool {
+	q := c16Plain(i, grp, true)
+	if s.typ != q.typ || len(s.samples) != len(q.samples) || s.comment != fmt.Sprintf("c%d:%d", grp, i) {
+		return false
+	}
+	for j := range s.samples {
+		if s.samples[j] != q.samples[j] {
+			return false
+		}
+	}
+	return true
+}
+
+func c16SrcTermAt(s c16Src, i, grp int) Term {
+	if c16IsPlain(s, i, grp) {
+		return L(ZI(s.kind))
+	}
+	return c16SrcTerm(s)
+}
+
 func c16SrcTerm(s c16Src) Term {
 	var kv []Term
 	for _, x := range s.samples {
@@ -395,14 +417,14 @@ func c16SrcTerm(s c16Src) Term {
 
 func c16Input(cs c16Case) Term {
 	var a, b, o []Term
-	for _, s := range cs.srcs {
-		a = append(a, c16SrcTerm(s))
+	for i, s := range cs.srcs {
+		a = append(a, c16SrcTermAt(s, i, 0))
 	}
-	for _, s := range cs.bases {
-		b = append(b, c16SrcTerm(s))
+	for i, s := range cs.bases {
+		b = append(b, c16SrcTermAt(s, i, 1))
 	}
 	for _, e := range cs.order {
-		o = append(o, L(ZI(e.grp), ZI(e.idx)))
+		o = append(o, ZI(e.grp*1000000+e.idx))
 	}
 	return L(L(a...), L(b...), L(o...))
 }
@@ -683,7 +705,11 @@ func runC16(c *Ctx) {
 	patterns := []string{"none", "all", "half", "chunk0", "chunk1", "lastchunk", "only0", "only127", "only128", "onlylast", "allbut128", "sparse"}
 	reps := c.Budget(1, 6)
 	for _, n := range sizes {
-		for _, pat := range patterns {
+		for pi, pat := range patterns {
+			// quick tier: every pattern at 129 and 257 (one source past a boundary), a rotating third elsewhere
+			if !thorough && n != 129 && n != 257 && (pi+n)%3 != 0 {
+				continue
+			}
 			for rep := 0; rep < reps; rep++ {
 				var cs c16Case
 				lastStart := (n - 1) / 128 * 128
